@@ -189,4 +189,43 @@ theorem retry_lands_after_loss_state (rx : Reactions) {s : St V R} (hI : Inv s) 
   · exact issue_pending_ge s.nextId _ (lostOp s r) (by rw [hbase.1]; exact Nat.le_refl _)
       (by rw [hbase.2]; intro e he; simp at he)
 
+theorem callOp_true_timers_new (s : St V R) (σ : Nat) (tmo : Option Nat) (rs : RetSig) {x : Nat × Nat}
+    (hx : x ∈ (callOp s σ true tmo rs).timers) : x ∈ s.timers ∨ x.1 = s.nextId := by
+  unfold callOp at hx; simp only [if_true] at hx; split at hx
+  · rcases List.mem_append.mp hx with h | h
+    · exact Or.inl h
+    · rw [List.mem_singleton] at h
+      exact Or.inr (by rw [h])
+  · exact Or.inl hx
+
+/-- The timers of the calls a callback issues are new ones. -/
+theorem issue_timers_ge (n : Nat) : ∀ (cs : List NewCall) (s : St V R), n ≤ s.nextId →
+    (∀ x ∈ s.timers, n ≤ x.1) → ∀ x ∈ (issue s cs).timers, n ≤ x.1
+  | [], _, _, h => h
+  | c :: cs, s, hn, h => by
+    refine issue_timers_ge n cs (callOp s c.serial true c.timeout c.rs)
+      (by rw [callOp_true_nextId]; omega) ?_
+    intro x hx
+    rcases callOp_true_timers_new s _ _ _ hx with hm | hd
+    · exact h x hm
+    · omega
+
+/-- `connectionLost` as a whole, when no disconnect callback lets an exception out: the disconnect callbacks'
+calls are issued first, as ordinary calls, and the table that results is the one that is failed. -/
+theorem lostOpD_eq (asStr : V → Option (List Char)) (rx : Reactions) (dcs : List DcAction) (hq : QuietDcs dcs)
+    (s : St V R) (hr : s.ready = true) (r : R) :
+    lostOpD rx dcs s r = lostOpR rx (run asStr s ((dcCalls dcs).map NewCall.toOp)) r := by
+  have hnr : (!s.ready) = false := by simp [hr]
+  unfold lostOpD
+  simp only [hnr, Bool.false_eq_true, if_false, runDcs_quiet dcs s hq]
+  rw [issue_eq_run asStr]
+
+/-- After `connectionLost` with re-entrant errbacks every timer left is one of a retry (a new Deferred). -/
+theorem lostOpR_timers_ge (rx : Reactions) {s : St V R} (hI : Inv s) (hr : s.ready = true) (r : R) :
+    ∀ x ∈ (lostOpR rx s r).timers, s.nextId ≤ x.1 := by
+  rw [lostOpR_eq_issue rx hI hr r]
+  refine issue_timers_ge s.nextId _ (lostOp s r) ?_ ?_
+  · rw [lostOp_char hI hr]; exact Nat.le_refl _
+  · rw [lostOp_char hI hr]; intro x hx; simp at hx
+
 end Txdbus.Calls
